@@ -1,4 +1,6 @@
 import PytmeModel.Model.C13
+import PytmeModel.Model.C14
 import PytmeModel.Model.Common
 import PytmeModel.Proofs.Common
 import PytmeModel.Props.C13
+import PytmeModel.Props.C14
